@@ -1,5 +1,6 @@
 import GnoVerif.Proofs.C18Arith
 import GnoVerif.Proofs.C18Cmp2
+import GnoVerif.Proofs.C18Parse
 /-!
 # C18 — coin-set arithmetic matches the multiset model
 
@@ -297,5 +298,17 @@ example : Valid [⟨dA, 5#64⟩, ⟨dB, 2#64⟩] ∧ Valid [⟨dA, 5#64⟩, ⟨d
 theorem isEqual_operands_unchanged (A B : Coins) (hA : Sorted A) (hB : Sorted B) :
     (isEqualFull A B).2 = (A, B) :=
   isEqualFull_operands hA hB
+
+/-! ## String / ParseCoins -/
+
+/-- Parsing the string form of a valid coin set returns the same set.  (`str` = `Coins.String`:
+decimal amounts glued to the denoms, joined by ","; `parseCoins` = `ParseCoins`: `TrimSpace`,
+split on ",", per item `TrimSpace` + length cap + the `reCoin` match + `ParseInt` + `ValidateDenom`,
+then sort and `validate`.) -/
+theorem parse_toString_roundtrip (cs : Coins) (h : Valid cs) : parseCoins (str cs) = .ok cs :=
+  parseCoins_str h
+
+example : Valid [⟨dA, 5#64⟩, ⟨dB, maxAmt⟩] ∧
+    str [⟨dA, 5#64⟩, ⟨dB, 7#64⟩] = [53, 97, 97, 97, 44, 55, 98, 98, 98] := by decide
 
 end GnoVerif.C18
